@@ -14,7 +14,7 @@ func init() {
 		ID: "C14",
 		Explanation: "Coroutine routing and lifecycle ordering decided by value flow on SSA: (R1) YieldRef receives from its own request channel, replies on the result channel of the coroutine stored in the very request it received (under that coroutine's lock wrapper), sends its parameter `out` exactly once on the path where a requester is present, and returns the request's value; YieldFrom sends one request carrying the caller and `in` to the target and then receives from its own result channel and returns that; receive builds {cor: caller, val: in} and sends it on the target's own request channel. " +
 			"(R2) Start sets the started flag before spawning, the goroutine runs the effect and then close(); StartWithVal enqueues (nil, in) before Start; DoNotation assigns the result before Done and waits before returning; YieldFromIO subscribes exactly once, OnNext stores then signals, Wait dominates the return. " +
-			"Not decided: the k-th request / k-th yield pairing and per-caller order over all interleavings with more requests than the channel buffer - schedule properties; what happens when the target finishes first (C15).",
+			"Not decided: the k-th request / k-th yield pairing and per-caller order over all interleavings with more requests than the channel buffer - schedule properties; what happens when the target finishes first (C15). (R3) the request/result channels are assigned only on the object under construction.",
 		Trusted: commonTrusted,
 		Run:     runC14,
 		Relies: []Dep{
